@@ -457,7 +457,9 @@ def apply_simplex_transform(json_object):
     return unres_id
 
 
-def create_normal_distribution(var_id, x_unres, json_object, loc, scale):
+def create_normal_distribution(
+    var_id, x_unres, json_object, loc, scale, distribution='torch.distributions.Normal'
+):
     loc_param = Parameter.json_factory(
         var_id + '.' + x_unres + '.loc',
         **{'full_like': x_unres, 'tensor': loc},
@@ -480,7 +482,7 @@ def create_normal_distribution(var_id, x_unres, json_object, loc, scale):
 
     distr = Distribution.json_factory(
         var_id + '.' + json_object['id'],
-        'torch.distributions.Normal',
+        distribution,
         x_unres,
         {'loc': loc_param, 'scale': scale_param},
     )
@@ -593,17 +595,29 @@ def create_meanfield(
                     distributions.extend(distrs)
                     var_parameters.extend(params)
                     return distributions, var_parameters
-                elif distribution == 'Normal':
+                elif distribution in ('Normal', 'LogNormal'):
                     tensor = torch.tensor(json_object['tensor'])
                     var = tensor * 0.01
                     loc = torch.log(tensor / torch.sqrt(1 + var / tensor**2)).tolist()
                     scale_log = torch.log(
                         torch.sqrt(torch.log(1 + var / tensor**2))
                     ).tolist()
-                    unres_id = apply_exp_transform(json_object)
-                    distr, loc, scale = create_normal_distribution(
-                        var_id, unres_id, json_object, loc, scale_log
-                    )
+                    if distribution == 'Normal':
+                        # normal distribution on the log-transformed parameter
+                        unres_id = apply_exp_transform(json_object)
+                        distr, loc, scale = create_normal_distribution(
+                            var_id, unres_id, json_object, loc, scale_log
+                        )
+                    else:
+                        # same distribution on the positive parameter itself
+                        distr, loc, scale = create_normal_distribution(
+                            var_id,
+                            json_object['id'],
+                            json_object,
+                            loc,
+                            scale_log,
+                            'torch.distributions.LogNormal',
+                        )
                     var_parameters.extend((loc['id'], scale['x']['id']))
                 elif distribution in ('Gamma', 'Weibull'):
                     if distribution == 'Gamma':
